@@ -1605,6 +1605,26 @@ pub fn run_c15(tier: Tier, budget: Duration, frag: &mut Frag) {
                 }
             }
         }
+        // very wide stages (around the range of an 8-bit counter), followed by a stage of one; no deviations
+        let mut wide_scs = Vec::new();
+        for w in [255usize, 256, 257] {
+            let mut ops = wide_stage(w);
+            ops.push(Op::Barrier);
+            ops.push(sy("last", &[], &[0], &[]));
+            let mut sc = Scenario::plain(ops, Mode::Async, 0);
+            sc.script = Some("DWDW".to_string());
+            wide_scs.push(sc);
+        }
+        {
+            let t0 = Instant::now();
+            let opts = ExploreOpts { bounds: vec![0], all_points: false, deadline: t0 + budget / 6, max_execs: u64::MAX, keep_traces: 0, deadlock_prop: Some("C15"), delay_mode: true };
+            let r = run_scenarios(&wide_scs, Mon::default(), &opts);
+            frag.parts.push(json!({"engine":"E2 schedmc","scenarios":"one stage of 255 / 256 / 257 side-by-side systems, then a stage of one; script DWDW; default schedule only (bound 0)","n_scenarios":wide_scs.len(),"scenarios_completed":r.completed,"schedules":r.executions,"states":r.nodes,"transitions":r.transitions,"deadlocks":r.deadlocks,"cap_hit":r.capped,"wall_s":t0.elapsed().as_secs_f64()}));
+            frag.states += r.nodes;
+            frag.transitions += r.transitions;
+            frag.exhaustive &= !r.capped;
+            frag.col.merge(r.col);
+        }
         let t0 = Instant::now();
         let opts = ExploreOpts { bounds: vec![0, 1], all_points: false, deadline: t0 + budget / 5, max_execs: u64::MAX, keep_traces: 0, deadlock_prop: Some("C15"), delay_mode: true };
         let r = run_scenarios(&scs, Mon::default(), &opts);
@@ -1754,6 +1774,13 @@ pub fn run_c09(tier: Tier, budget: Duration, frag: &mut Frag) {
         frag.transitions += hist;
         frag.traces_validated += hist;
     }
+    {
+        let t1 = Instant::now();
+        let k = crate::c09::unwind_probe(&mut frag.col);
+        frag.parts.push(json!({"engine":"child-process probe","what":"fetches of a present slot made from a destructor while the thread unwinds from a panic, with an exclusive / a shared guard of the slot alive (8 cases, one child process each): a fetch the guard rules out never answers 'absent' and never hands out a second guard","cases": k, "wall_s": t1.elapsed().as_secs_f64()}));
+        frag.states += k;
+        frag.transitions += k;
+    }
     let n = jobs.len() as u32;
     for (depth, full, ids) in jobs {
         let t1 = Instant::now();
@@ -1847,6 +1874,14 @@ pub fn run_c17(tier: Tier, budget: Duration, frag: &mut Frag) {
         frag.transitions += st.transitions;
         frag.traces_validated += st.histories;
         frag.exhaustive &= !st.capped;
+    }
+    {
+        let t1 = Instant::now();
+        let n = crate::c17::many_types_sweep(&mut frag.col);
+        frag.parts.push(json!({"engine":"E3 histmc","what":"tables of 1..24 distinct registered types of different sizes, grown one registration at a time (for every size at which the first / middle / last type is registered once more): get on every type, iter and iter_mut after every step","cases": n, "wall_s": t1.elapsed().as_secs_f64()}));
+        frag.states += n;
+        frag.transitions += n;
+        frag.traces_validated += n;
     }
     // creation-path sweep: the resources reach the world by insert, the entry API, a default provider (setup), and
     // there are decoys under a dynamic id; de-duplicated on (registration order, present set, creation path, decoys)
